@@ -14,6 +14,8 @@
    parsed trees that the Go types and the parser guarantee (a template body is
    a ListNode, soydoc params are SoyDocParamNodes, a {let} is a direct child of
    a ListNode); the harness evaluates them on every parsed bundle. *)
+(* source tie by translation: the lemmas of these files are obligations of this property *)
+From Soy Require Import Proofs.SourceTieChecker.
 From Soy Require Import Model.Bytes Model.Num Model.Values Model.Outcome Model.Ast Model.Interp Model.RefView Model.Checker
   Spec.Wf Proofs.CheckerProofs Proofs.CheckerInterpProofs.
 Open Scope N_scope.
@@ -37,6 +39,13 @@ Print Assumptions C07_check_registry_iff.
 (* the loop functions the model special-cases are soyhtml's loopFuncs (table regenerated from funcs.go) *)
 Theorem C07_loop_funcs_tied : loop_func_names = Generated.Tables.html_loop_funcs.
 Proof. exact loop_func_names_table. Qed.
+
+(* Registry.Add's expression for the Optional flag of a folded header param, regenerated from
+   registry.go on every run, is the ? marker alone (a default value does not make a param optional:
+   the renderer never applies defaults) *)
+Theorem C07_header_param_optional : forall opt has_default has_type,
+  Generated.Tables.header_param_optional opt has_default has_type = opt.
+Proof. exact header_param_optional_spec. Qed.
 
 (* ------------------------------------------------------------------ *)
 (* 2. static scoping is sound for the scope stack *)
